@@ -24,7 +24,9 @@ func init() {
 	register(&Scenario{Name: "C01", Modes: []string{"event", "yield"}, Fn: c01})
 }
 
-type detRand struct{ r interface{ Read([]byte) (int, error) } }
+type detRand struct {
+	r interface{ Read([]byte) (int, error) }
+}
 
 func (d detRand) Read(p []byte) (int, error) { return d.r.Read(p) }
 
